@@ -180,3 +180,42 @@ func TestExhaustive(t *testing.T) {
 	core.ExhaustiveDone(fmt.Sprintf("all 1-component images with <=%d samples (w,h<=3) at P=2 and <=%d samples at P=4", max2, max4), total*int64(shards))
 	core.AddSample(map[string]any{"exhaustive": "3x2 P=2", "pix": []int{0, 3, 3, 0, 1, 2}})
 }
+
+// TestFlat: many flat lines (pure run mode: long sequences of 1 bits, i.e. 0xFF bytes and
+// stuffed bytes in the output) followed by outliers of about half the range while the Golomb
+// parameters are still small (31-bit writes: the escape prefix, long unary prefixes). This is
+// the corner where the bit writer's buffer is full, holds two stuffed bytes and receives its
+// longest write.
+func TestFlat(t *testing.T) {
+	shard, shards := core.EnvInt("VERIF_SHARD", 0), max(1, core.EnvInt("VERIF_SHARDS", 1))
+	seed := core.EnvInt("VERIF_SEED", 1)
+	n := 16000
+	if core.Thorough() {
+		n = 400000
+	}
+	g := rapid.Custom(func(t *rapid.T) *Case {
+		p := rapid.SampledFrom([]int{11, 12, 12, 13, 14, 15, 16, 16, 8, 10}).Draw(t, "P")
+		w, rows := rapid.IntRange(1, 64).Draw(t, "w"), rapid.IntRange(1, 80).Draw(t, "rows")
+		maxv := 1<<p - 1
+		bg := rapid.SampledFrom([]int{0, 0, maxv, maxv / 2, rapid.IntRange(0, maxv).Draw(t, "bgv")}).Draw(t, "bg")
+		im := &gen.Image{W: w, H: rows + 1, C: 1, P: p, Class: "lit-flat-outlier"}
+		im.Pix = make([]int, w*(rows+1))
+		for i := range im.Pix {
+			im.Pix[i] = bg
+		}
+		// outliers in the last line
+		k := rapid.IntRange(1, min(w, 3)).Draw(t, "k")
+		for i := 0; i < k; i++ {
+			x := rapid.IntRange(0, min(w-1, 7)).Draw(t, "x")
+			v := rapid.OneOf(rapid.IntRange(maxv/4, 3*maxv/4), rapid.IntRange(0, maxv)).Draw(t, "v")
+			im.Pix[rows*w+x] = v
+		}
+		return &Case{Img: im}
+	})
+	for i := 0; i < n; i++ {
+		if i%shards != shard {
+			continue
+		}
+		core.Eval(t, ID, "quota", g.Example(seed*1000003+i), Check)
+	}
+}
